@@ -155,6 +155,19 @@ func typeKey(t types.Type) string {
 	if a, ok := t.(*types.Alias); ok {
 		return typeKey(types.Unalias(a))
 	}
+	switch u := t.(type) {
+	case *types.Basic:
+		switch u.Kind() {
+		case types.Uint8:
+			return "uint8"
+		case types.Int32:
+			return "int32"
+		}
+	case *types.Slice:
+		return "__" + typeKey(u.Elem())
+	case *types.Pointer:
+		return "_" + typeKey(u.Elem())
+	}
 	return mangle(t.String())
 }
 
@@ -264,7 +277,7 @@ func (g *Gen) strLit(s string) string {
 	g.sc.add([]string{name}, fmt.Sprintf("(declare-const %s Str)", name))
 	var facts []string
 	facts = append(facts, eq(sx("len", name), g.idxLit(int64(len(s)))))
-	for i := 0; i < len(s); i++ {
+	for i := 0; i < len(s) && i < 48; i++ { // long literals (scripts): a prefix is enough to tell them apart
 		facts = append(facts, eq(sx("at", name, g.idxLit(int64(i))), g.intLit(big.NewInt(int64(s[i])), byteT)))
 	}
 	g.sc.addAxiom([]string{name}, "(assert "+and(facts...)+")")
